@@ -42,6 +42,10 @@ type frame struct {
 	caller    *frame
 	g         *Goroutine
 	pos       token.Pos
+	loops     map[*ssa.BasicBlock]int
+	phiCond   *Term // if-converted branch: phis of the join become ite(phiCond, edge(phiT), edge(phiF))
+	phiT      *ssa.BasicBlock
+	phiF      *ssa.BasicBlock
 }
 
 // goPanic is a Go-level panic travelling through interpreted frames.
@@ -388,7 +392,7 @@ func (in *Interp) runFrame(fr *frame) {
 		in.cur = fr
 		blk := fr.block
 		if in.unwind > 0 && len(blk.Preds) > 1 {
-			in.noteLoop(blk)
+			in.noteLoop(fr, blk)
 		}
 		for _, instr := range blk.Instrs {
 			in.steps++
@@ -396,6 +400,11 @@ func (in *Interp) runFrame(fr *frame) {
 				panic(&pathEnd{reason: "unwind", detail: "step budget exceeded"})
 			}
 			fr.pos = instr.Pos()
+			if fr.phiCond != nil {
+				if _, isPhi := instr.(*ssa.Phi); !isPhi {
+					fr.phiCond = nil
+				}
+			}
 			switch in.visit(fr, instr) {
 			case kReturn:
 				fr.block = nil
@@ -462,7 +471,7 @@ const (
 	kJump
 )
 
-func (in *Interp) noteLoop(b *ssa.BasicBlock) {
+func (in *Interp) noteLoop(fr *frame, b *ssa.BasicBlock) {
 	// crude loop-header detection: a block with a back edge (pred index >= own index)
 	isHeader := false
 	for _, p := range b.Preds {
@@ -474,11 +483,11 @@ func (in *Interp) noteLoop(b *ssa.BasicBlock) {
 	if !isHeader {
 		return
 	}
-	if in.loopCount == nil {
-		in.loopCount = map[*ssa.BasicBlock]int{}
+	if fr.loops == nil {
+		fr.loops = map[*ssa.BasicBlock]int{}
 	}
-	in.loopCount[b]++
-	if in.loopCount[b] > in.unwind {
+	fr.loops[b]++
+	if fr.loops[b] > in.unwind {
 		panic(&pathEnd{reason: "unwind", detail: fmt.Sprintf("loop at %s iterated more than %d times on one path", in.fset.Position(b.Instrs[0].Pos()), in.unwind)})
 	}
 }
@@ -597,7 +606,10 @@ func (in *Interp) visit(fr *frame, instr ssa.Instruction) cont {
 		p := fr.get(x.Addr)
 		in.storeThrough(p, fr.get(x.Val))
 	case *ssa.If:
-		c := fr.get(x.Cond).(*Term)
+		c := in.simp(fr.get(x.Cond).(*Term))
+		if !c.IsConst() && in.tryIfConvert(fr, x, c) {
+			return kJump
+		}
 		succ := 1
 		if in.branch(c) {
 			succ = 0
@@ -669,6 +681,25 @@ func (in *Interp) visit(fr *frame, instr ssa.Instruction) cont {
 		in.funcSeq++
 		fr.set(x, &FuncV{fn: x.Fn.(*ssa.Function), free: free, id: in.funcSeq})
 	case *ssa.Phi:
+		if fr.phiCond != nil {
+			var tv, fv Value
+			for i, pred := range x.Block().Preds {
+				if pred == fr.phiT {
+					tv = fr.get(x.Edges[i])
+				}
+				if pred == fr.phiF {
+					fv = fr.get(x.Edges[i])
+				}
+			}
+			tt, ok1 := tv.(*Term)
+			ft, ok2 := fv.(*Term)
+			if ok1 && ok2 {
+				fr.set(x, Ite(fr.phiCond, tt, ft))
+			} else {
+				fr.set(x, tv) // identical by construction (checked in tryIfConvert)
+			}
+			break
+		}
 		for i, pred := range x.Block().Preds {
 			if fr.prev == pred {
 				fr.set(x, fr.get(x.Edges[i]))
@@ -681,6 +712,114 @@ func (in *Interp) visit(fr *frame, instr ssa.Instruction) cont {
 		panic(fmt.Sprintf("unexpected instruction: %T", instr))
 	}
 	return kNext
+}
+
+// pureArm reports whether block b consists only of side-effect free,
+// non-panicking scalar instructions followed by a jump to join.
+func pureArm(b, join *ssa.BasicBlock) bool {
+	if len(b.Succs) != 1 || b.Succs[0] != join || len(b.Preds) != 1 {
+		return false
+	}
+	for _, ins := range b.Instrs[:len(b.Instrs)-1] {
+		switch x := ins.(type) {
+		case *ssa.DebugRef:
+		case *ssa.BinOp:
+			switch x.Op {
+			case token.QUO, token.REM, token.SHL, token.SHR:
+				return false
+			}
+			if _, ok := x.X.Type().Underlying().(*types.Basic); !ok {
+				return false
+			}
+			if b, ok := x.X.Type().Underlying().(*types.Basic); ok && b.Info()&(types.IsString|types.IsFloat|types.IsComplex) != 0 {
+				return false
+			}
+		case *ssa.UnOp:
+			if x.Op == token.MUL || x.Op == token.ARROW {
+				return false
+			}
+		case *ssa.Convert:
+			if _, ok := x.Type().Underlying().(*types.Basic); !ok {
+				return false
+			}
+			if b := x.Type().Underlying().(*types.Basic); b.Info()&(types.IsInteger|types.IsBoolean) == 0 {
+				return false
+			}
+			if b, ok := x.X.Type().Underlying().(*types.Basic); !ok || b.Info()&(types.IsInteger|types.IsBoolean) == 0 {
+				return false
+			}
+		case *ssa.ChangeType:
+		default:
+			return false
+		}
+	}
+	_, ok := b.Instrs[len(b.Instrs)-1].(*ssa.Jump)
+	return ok
+}
+
+// tryIfConvert executes a triangle/diamond whose arms are pure as ite-phis
+// instead of forking the path.
+func (in *Interp) tryIfConvert(fr *frame, x *ssa.If, c *Term) bool {
+	cur := fr.block
+	t, f := cur.Succs[0], cur.Succs[1]
+	var join *ssa.BasicBlock
+	var armT, armF *ssa.BasicBlock // nil: edge goes directly to join
+	switch {
+	case t != f && pureArm(t, f):
+		join, armT = f, t
+	case t != f && pureArm(f, t):
+		join, armF = t, f
+	case len(t.Succs) == 1 && len(f.Succs) == 1 && t.Succs[0] == f.Succs[0] && pureArm(t, t.Succs[0]) && pureArm(f, f.Succs[0]):
+		join, armT, armF = t.Succs[0], t, f
+	default:
+		return false
+	}
+	if len(join.Preds) != 2 {
+		return false
+	}
+	run := func(b *ssa.BasicBlock) {
+		if b == nil {
+			return
+		}
+		fr.block = b
+		for _, ins := range b.Instrs[:len(b.Instrs)-1] {
+			in.visit(fr, ins)
+		}
+	}
+	run(armT)
+	run(armF)
+	predT, predF := cur, cur
+	if armT != nil {
+		predT = armT
+	}
+	if armF != nil {
+		predF = armF
+	}
+	// all phis must merge scalars (or identical values)
+	for _, ins := range join.Instrs {
+		phi, ok := ins.(*ssa.Phi)
+		if !ok {
+			break
+		}
+		var tv, fv Value
+		for i, pred := range join.Preds {
+			if pred == predT {
+				tv = fr.get(phi.Edges[i])
+			}
+			if pred == predF {
+				fv = fr.get(phi.Edges[i])
+			}
+		}
+		_, ok1 := tv.(*Term)
+		_, ok2 := fv.(*Term)
+		if !(ok1 && ok2) {
+			fr.block = cur
+			return false
+		}
+	}
+	fr.phiCond, fr.phiT, fr.phiF = c, predT, predF
+	fr.prev, fr.block = cur, join
+	return true
 }
 
 func (in *Interp) panicMessage(v Value) string {
